@@ -13,8 +13,8 @@ EXTENDS CrystalObject, TLC, Json, IOUtils
 CONSTANT NBlocks
 ASSUME TLCSet(1, JsonDeserialize(IOEnv.TRACE_FILE).traces)     \* parsed once, not once per worker
 Traces == TLCGet(1)
-VARIABLES blk, tid, l, st, memo, known, verdict
-vars == <<blk, tid, l, st, memo, known, verdict>>
+VARIABLES blk, tid, l, st, memo, known, verdict, ext
+vars == <<blk, tid, l, st, memo, known, verdict, ext>>
 
 StateOf(x) == NormState([choice |-> x.choice, n |-> x.n, gram |-> x.gram, pts |-> x.pts])
 (* does the observed state x (grid projection, off flag, signature of the exact floats) show the specification's state s? *)
@@ -22,18 +22,18 @@ ObsMatches(x, s) == IF IsOpaque(s) THEN x.sig = s.opq /\ x.choice = s.choice ELS
 Ids(b) == {i \in 1..Len(Traces) : i % NBlocks = b - 1}
 Report(v) == PrintT("V|" \o ToString(tid) \o "|" \o v)
 
-Init == blk = 0 /\ tid = 0 /\ l = 0 /\ st = <<>> /\ memo = <<>> /\ known = {} /\ verdict = ""
-PickBlock == blk = 0 /\ blk' \in 1..NBlocks /\ UNCHANGED <<tid, l, st, memo, known, verdict>>
+Init == blk = 0 /\ tid = 0 /\ l = 0 /\ st = <<>> /\ memo = <<>> /\ known = {} /\ verdict = "" /\ ext = ""
+PickBlock == blk = 0 /\ blk' \in 1..NBlocks /\ UNCHANGED <<tid, l, st, memo, known, verdict, ext>>
 PickTrace == /\ blk > 0 /\ tid = 0 /\ tid' \in Ids(blk)
              /\ LET t == Traces[tid'] s0 == StateOf(t.init) IN
                 /\ st' = (1 :> s0)
                 /\ memo' = (1 :> [NoMemo EXCEPT !["cif"] = IF t.loaded THEN <<s0>> ELSE <<>>])
-             /\ l' = 1 /\ known' = {} /\ verdict' = "" /\ UNCHANGED blk
+             /\ l' = 1 /\ known' = {} /\ verdict' = "" /\ ext' = "" /\ UNCHANGED blk
 
 T == Traces[tid]
 Ev == T.events[l]
 Running == tid > 0 /\ verdict = "" /\ l <= Len(T.events)
-Fail(v) == verdict' = v /\ Report(v) /\ UNCHANGED <<blk, tid, l, st, memo, known>>
+Fail(v) == verdict' = v /\ Report(v) /\ UNCHANGED <<blk, tid, l, st, memo, known, ext>>
 
 (* which clause rejects a query event, "" if the specification explains it *)
 QueryClause(e) ==
@@ -52,7 +52,7 @@ TraceQuery ==
           ELSE /\ st' = SpecQuery(st, Ev.obj, Ev.q)
                /\ memo' = FillMemo(memo, st, Ev.obj, Ev.q)
                /\ known' = known \cup {<<Ev.q, st[Ev.obj], Ev.fresh>>}
-               /\ l' = l + 1 /\ UNCHANGED <<blk, tid, verdict>>
+               /\ l' = l + 1 /\ UNCHANGED <<blk, tid, verdict, ext>>
 TraceSwitch ==
   /\ Running /\ Ev.ev = "switch"
   /\ IF ~(Ev.obj \in DOMAIN st /\ Ev.ch \in {"H", "R"}) THEN Fail("OOD event")
@@ -64,31 +64,36 @@ TraceSwitch ==
            ELSE IF Ev.state.choice # Ev.ch THEN Fail("REJECT SwitchState")
            ELSE /\ st' = [st EXCEPT ![Ev.obj] = IF Ev.ch = st[Ev.obj].choice THEN st[Ev.obj] ELSE Opaque(Ev.ch, Ev.state.sig)]
                 /\ UNCHANGED memo
-                /\ l' = l + 1 /\ UNCHANGED <<blk, tid, known, verdict>>)
+                /\ l' = l + 1 /\ UNCHANGED <<blk, tid, known, verdict, ext>>)
      ELSE IF ~SwitchDomain(st[Ev.obj], Ev.ch) THEN Fail("OOD gram-not-divisible")
      ELSE IF Ev.exc # "" THEN Fail("REJECT Raised:switch")
      ELSE IF Ev.off THEN Fail("REJECT OnGrid:switch")
      ELSE IF StateOf(Ev.state) # SpecSwitch(st, Ev.obj, Ev.ch)[Ev.obj] THEN Fail("REJECT SwitchState")
      ELSE /\ st' = SpecSwitch(st, Ev.obj, Ev.ch)
           /\ UNCHANGED memo               \* as-built bookkeeping: nothing invalidated (classification only)
-          /\ l' = l + 1 /\ UNCHANGED <<blk, tid, known, verdict>>
+          /\ l' = l + 1 /\ UNCHANGED <<blk, tid, known, verdict, ext>>
 TraceRefused ==
   /\ Running /\ Ev.ev = "refused"
   /\ IF ~(Ev.obj \in DOMAIN st /\ MustRefuse(T.number, Ev.ch)) THEN Fail("OOD event")
      ELSE IF Ev.off /\ ~IsOpaque(st[Ev.obj]) THEN Fail("REJECT OnGrid:refused")
      ELSE IF ~ObsMatches(Ev.state, SpecRefused(st, Ev.obj)[Ev.obj]) \/ Ev.aux # Ev.aux_before THEN Fail("REJECT RefusedRequestChangedState")
      ELSE /\ st' = SpecRefused(st, Ev.obj)
-          /\ l' = l + 1 /\ UNCHANGED <<blk, tid, memo, known, verdict>>
-(* normalize_hydrogen_bondlengths: hydrogens bonded to C, N, O, B end up at the neutron distance, nothing else changes; the
-   object is in a new state (known by its signature) unless nothing had to move *)
+          /\ l' = l + 1 /\ UNCHANGED <<blk, tid, memo, known, verdict, ext>>
+(* normalize_hydrogen_bondlengths, the other in-place change of the API: whatever it did, the object is afterwards in the state
+   it is observed in (known by its signature), and every later answer must be the one a fresh crystal in that state gives.
+   The listed property says nothing about where the hydrogens go or whether the call succeeds: a call that raised must have left
+   the object as it was (a refused request); that it raised, and the geometry of what it did (hydrogens bonded to C, N, O, B at the
+   neutron distance, nothing else moved), are judged beyond the property and reported apart (ext=...) *)
 TraceNormalize ==
   /\ Running /\ Ev.ev = "normalize"
   /\ IF ~(Ev.obj \in DOMAIN st) THEN Fail("OOD event")
-     ELSE IF Ev.exc # "" THEN Fail("REJECT Raised:normalize")
-     ELSE IF NormalizeClause(Ev.atoms) # "" THEN Fail("REJECT Normalize:" \o NormalizeClause(Ev.atoms))
+     ELSE IF Ev.exc # "" THEN
+          (IF ~ObsMatches(Ev.state, st[Ev.obj]) \/ Ev.aux # Ev.aux_before THEN Fail("REJECT FailedNormalizeChangedState")
+           ELSE /\ ext' = "Raised:normalize" /\ l' = l + 1 /\ UNCHANGED <<blk, tid, st, memo, known, verdict>>)
      ELSE IF ~Ev.cellsame \/ Ev.aux # Ev.aux_before \/ Ev.state.choice # st[Ev.obj].choice THEN Fail("REJECT Normalize:ChangedCellOrGroup")
      ELSE /\ st' = [st EXCEPT ![Ev.obj] = IF (\A k \in DOMAIN Ev.atoms : ~Ev.atoms[k].moved) /\ ~IsOpaque(st[Ev.obj]) THEN st[Ev.obj]
                                           ELSE Opaque(st[Ev.obj].choice, Ev.state.sig)]
+          /\ ext' = IF NormalizeClause(Ev.atoms) # "" THEN "Normalize:" \o NormalizeClause(Ev.atoms) ELSE ext
           /\ UNCHANGED memo               \* as-built bookkeeping: nothing invalidated (classification only)
           /\ l' = l + 1 /\ UNCHANGED <<blk, tid, known, verdict>>
 TraceCopy ==
@@ -98,9 +103,9 @@ TraceCopy ==
      ELSE IF ~ObsMatches(Ev.state, st[Ev.src]) THEN Fail("REJECT CopyState")
      ELSE /\ st' = SpecCopy(st, Ev.src, Ev.dst)
           /\ memo' = [k \in DOMAIN st \cup {Ev.dst} |-> IF k = Ev.dst THEN memo[Ev.src] ELSE memo[k]]
-          /\ l' = l + 1 /\ UNCHANGED <<blk, tid, known, verdict>>
+          /\ l' = l + 1 /\ UNCHANGED <<blk, tid, known, verdict, ext>>
 Finish == /\ tid > 0 /\ verdict = "" /\ l = Len(T.events) + 1
-          /\ verdict' = "ACCEPT" /\ Report("ACCEPT") /\ UNCHANGED <<blk, tid, l, st, memo, known>>
+          /\ verdict' = "ACCEPT" /\ Report(IF ext = "" THEN "ACCEPT" ELSE "ACCEPT ext=" \o ext) /\ UNCHANGED <<blk, tid, l, st, memo, known, ext>>
 Next == PickBlock \/ PickTrace \/ TraceQuery \/ TraceSwitch \/ TraceRefused \/ TraceNormalize \/ TraceCopy \/ Finish
 TraceSpec == Init /\ [][Next]_vars
 =============================================================================
